@@ -1061,6 +1061,9 @@ func (x *c01ctx) evalE1(c c01case, f c01file, payload []byte, ref []c01chunk, ha
 	if len(chunks) >= 2 {
 		r.Count("runs_with_2+_chunks", 1)
 	}
+	if c.Buf < len(f.data) {
+		r.Count("runs_buffer_smaller_than_file", 1) // what the harness asks for (the guard), whatever the chunk reader answers
+	}
 	if haveRef {
 		if c01sameChunks(chunks, ref) {
 			r.Count("transport_runs_same_chunk_stream", 1)
@@ -1425,6 +1428,10 @@ func (x *c01ctx) evalRead(c c01case, data []byte, judge func(obs []c01obs, site,
 	if c.Part == "stdin" {
 		r.Count("stdin_reads_"+c.Reader+"_"+c.Fd0+c.Ext, 1)
 	}
+	if site == "" {
+		// the entry point died before it returned (c01open names the site on return)
+		site = "entry-point(" + c.Reader + ")/" + c.Fmt
+	}
 	if ab != "" {
 		if c01abClass(ab) == "deadlock" {
 			x.hung[hkey] = true
@@ -1739,7 +1746,7 @@ func TestVerifC01(t *testing.T) {
 		r.Sample(string(c01build(c01case{Fmt: "fastq", Shapes: quick["fastq"][1:4]}).data))
 		r.Sample(string(c01build(c01case{Fmt: "embl", Shapes: []int{3}}).data))
 	}
-	r.RequireNonVacuous("runs_with_2+_chunks")
+	r.RequireNonVacuous("runs_buffer_smaller_than_file")
 	r.RequireNonVacuous("runs_buffer_smaller_than_smallest_record")
 
 	k := 0
@@ -1806,386 +1813,401 @@ func TestVerifC01(t *testing.T) {
 	}
 	// the quick shape sets first (in the thorough tier the full products come last, so that a run cut
 	// short by its deadline has still covered everything the quick tier covers)
-	if runMain(false) {
-		return
-	}
-	if thorough {
-		defer runMain(true)
-	}
-
-	// ---- E1 reduced corpus: every 2-piece split and the compressed transports; pipeline
-	for _, f := range formats {
-		if !want("reduced", f) {
-			continue
+	// Breadth first (HARNESS_GUIDE rule 10): the cheap distinct classes (stdin, kseq, 3 MiB files: about 7 %
+	// of the CPU time of the quick tier) run before the deep enumerations (every buffer size x transport), so
+	// that a run cut by its deadline has visited every entry point once.
+	deep := func() {
+		if runMain(false) {
+			return
 		}
-		for _, v := range variants(f) {
-			stop := false
-			c01tuples(reduced[f], 3, func(tp []int) {
-				if stop {
-					return
-				}
-				c := v
-				c.Part, c.Shapes = "e1", tp
-				var file c01file
-				built := false
-				get := func() c01file {
-					if !built {
-						file = c01build(c)
-						built = true
-					}
-					return file
-				}
-				for _, tr := range []string{"split", "buf", "gzip", "bzip2", "xz", "zstd"} {
-					if tr == "split" && (f == "genbank" || f == "embl") {
-						continue // n^2 runs per file: flat files get 2-record files (below)
-					}
-					mine := r.Mine(k)
-					k++
-					if !mine {
-						continue
-					}
-					if r.Expired() {
-						stop = true
+
+		// ---- E1 reduced corpus: every 2-piece split and the compressed transports; pipeline
+		for _, f := range formats {
+			if !want("reduced", f) {
+				continue
+			}
+			for _, v := range variants(f) {
+				stop := false
+				c01tuples(reduced[f], 3, func(tp []int) {
+					if stop {
 						return
 					}
-					r.Count("reduced_file_transport_"+tr, 1)
-					t0 := c01cpu()
-					x.sweep(c, get(), []string{tr})
-					r.Count("cpu_ms_reduced_"+tr+"_"+f, c01cpuSince(t0))
-				}
-				// production readers on a real file
-				mine := r.Mine(k)
-				k++
-				if mine {
-					t0 := c01cpu()
-					defer func() { r.Count("cpu_ms_pipe", c01cpuSince(t0)) }()
-					for _, ext := range []string{"", ".gz", ".bz2", ".xz", ".zst"} {
-						for _, rdr := range []string{"universal", "format"} {
-							if rdr == "universal" && c.Fmt == "genbank" && c.RelHdr && c.CRLF {
-								continue // format sniffing of a CRLF release header is outside the statement
-							}
-							for _, w := range []int{1, 2, 3} {
-								if !thorough && !((rdr == "universal" && w == 2) || (rdr == "format" && w != 2 && (ext == "" || ext == ".gz"))) {
-									continue
+					c := v
+					c.Part, c.Shapes = "e1", tp
+					var file c01file
+					built := false
+					get := func() c01file {
+						if !built {
+							file = c01build(c)
+							built = true
+						}
+						return file
+					}
+					for _, tr := range []string{"split", "buf", "gzip", "bzip2", "xz", "zstd"} {
+						if tr == "split" && (f == "genbank" || f == "embl") {
+							continue // n^2 runs per file: flat files get 2-record files (below)
+						}
+						mine := r.Mine(k)
+						k++
+						if !mine {
+							continue
+						}
+						if r.Expired() {
+							stop = true
+							return
+						}
+						r.Count("reduced_file_transport_"+tr, 1)
+						t0 := c01cpu()
+						x.sweep(c, get(), []string{tr})
+						r.Count("cpu_ms_reduced_"+tr+"_"+f, c01cpuSince(t0))
+					}
+					// production readers on a real file
+					mine := r.Mine(k)
+					k++
+					if mine {
+						t0 := c01cpu()
+						defer func() { r.Count("cpu_ms_pipe", c01cpuSince(t0)) }()
+						for _, ext := range []string{"", ".gz", ".bz2", ".xz", ".zst"} {
+							for _, rdr := range []string{"universal", "format"} {
+								if rdr == "universal" && c.Fmt == "genbank" && c.RelHdr && c.CRLF {
+									continue // format sniffing of a CRLF release header is outside the statement
 								}
-								// options: full file batch x (flat files) feature table
-								flat := c.Fmt == "genbank" || c.Fmt == "embl"
-								for _, fb := range []bool{false, true} {
-									for _, wf := range []bool{false, true} {
-										if wf && !flat {
-											continue
-										}
-										if !thorough && flat && fb && !wf {
-											continue // quick: full file batch of flat files with the feature table only
-										}
-										pc := c
-										pc.Part, pc.Reader, pc.Ext, pc.Workers, pc.WithQual = "pipe", rdr, ext, w, true
-										pc.FullBatch, pc.WithFeat = fb, wf
-										x.evalPipe(pc, get())
-										if c.Fmt == "fastq" && ext == "" && (thorough || (rdr == "format" && w == 1)) {
-											pc.WithQual = false // OptionsReadQualities(false): no record stores qualities
+								for _, w := range []int{1, 2, 3} {
+									if !thorough && !((rdr == "universal" && w == 2) || (rdr == "format" && w != 2 && (ext == "" || ext == ".gz"))) {
+										continue
+									}
+									// options: full file batch x (flat files) feature table
+									flat := c.Fmt == "genbank" || c.Fmt == "embl"
+									for _, fb := range []bool{false, true} {
+										for _, wf := range []bool{false, true} {
+											if wf && !flat {
+												continue
+											}
+											if !thorough && flat && fb && !wf {
+												continue // quick: full file batch of flat files with the feature table only
+											}
+											pc := c
+											pc.Part, pc.Reader, pc.Ext, pc.Workers, pc.WithQual = "pipe", rdr, ext, w, true
+											pc.FullBatch, pc.WithFeat = fb, wf
 											x.evalPipe(pc, get())
-											r.Count("pipeline_reads_without_qualities", 1)
+											if c.Fmt == "fastq" && ext == "" && (thorough || (rdr == "format" && w == 1)) {
+												pc.WithQual = false // OptionsReadQualities(false): no record stores qualities
+												x.evalPipe(pc, get())
+												r.Count("pipeline_reads_without_qualities", 1)
+											}
 										}
 									}
 								}
 							}
 						}
 					}
-				}
-			})
-			if stop {
-				return
-			}
-		}
-	}
-
-	// ---- every 2-piece split x every buffer size on 2-record flat files
-	for _, f := range []string{"genbank", "embl"} {
-		if !want("reduced", f) {
-			continue
-		}
-		vs := variants(f)
-		if !thorough {
-			vs = vs[:1]
-		}
-		for _, v := range vs {
-			stop := false
-			c01tuples(reduced[f], 2, func(tp []int) {
+				})
 				if stop {
 					return
 				}
-				mine := r.Mine(k)
-				k++
-				if !mine {
-					return
-				}
-				if r.Expired() {
-					stop = true
-					return
-				}
-				c := v
-				c.Part, c.Shapes = "e1", tp
-				r.Count("reduced_file_transport_split", 1)
-				t0 := c01cpu()
-				x.sweep(c, c01build(c), []string{"split"})
-				r.Count("cpu_ms_reduced_split_"+f, c01cpuSince(t0))
-			})
-			if stop {
-				return
 			}
 		}
-	}
 
-	// ---- stdin: file descriptor 0 of the process is the transport (regular file: `cmd < FILE`, pipe:
-	// `cat FILE | cmd`), read by the entry points the commands use for it: ReadFastSeqFromStdin (kseq
-	// on C stdin), ReadGenbank / ReadEMBL on os.Stdin, and by the exported ReadFasta/FastqFromStdin and
-	// the "-" file name of Read*FromFile
-	for _, f := range formats {
-		if !want("stdin", f) {
-			continue
-		}
-		flat := f == "genbank" || f == "embl"
-		for _, v := range variants(f) {
-			stop := false
-			c01tuples(reduced[f], 3, func(tp []int) {
-				if stop {
-					return
-				}
-				mine := r.Mine(k)
-				k++
-				if !mine {
-					return
-				}
-				if r.Expired() {
-					stop = true
-					return
-				}
-				t0 := c01cpu()
-				c := v
-				c.Part, c.Shapes, c.Workers, c.WithQual = "stdin", tp, 2, true
-				file := c01build(c)
-				type sc struct {
-					rdr, fd0, ext string
-					quick         bool
-				}
-				var scs []sc
-				if !flat {
-					for _, fd0 := range []string{"file", "pipe"} {
-						for _, ext := range []string{"", ".gz"} {
-							scs = append(scs, sc{"kseq-stdin", fd0, ext, true})
-							scs = append(scs, sc{"format-stdin", fd0, ext, (fd0 == "file") == (ext == "")})
-							scs = append(scs, sc{"universal-dash", fd0, ext, fd0 == "pipe" && ext == ""})
-							scs = append(scs, sc{"format-dash", fd0, ext, fd0 == "file" && ext == ".gz"})
-						}
-					}
-				} else {
-					for _, fd0 := range []string{"file", "pipe"} {
-						scs = append(scs, sc{"format-stdin", fd0, "", true}) // the commands hand os.Stdin itself to ReadGenbank / ReadEMBL: no decompression
-						for _, ext := range []string{"", ".gz"} {
-							scs = append(scs, sc{"universal-dash", fd0, ext, (fd0 == "pipe") == (ext == "")})
-							scs = append(scs, sc{"format-dash", fd0, ext, (fd0 == "file") == (ext == "")})
-						}
-					}
-				}
-				for _, s := range scs {
-					if !thorough && !s.quick {
-						continue
-					}
-					if s.rdr == "universal-dash" && c.Fmt == "genbank" && c.RelHdr && c.CRLF {
-						continue // format sniffing of a CRLF release header is outside the statement
-					}
-					pc := c
-					pc.Reader, pc.Fd0, pc.Ext = s.rdr, s.fd0, s.ext
-					pc.WithFeat = flat && s.fd0 == "pipe"
-					x.evalPipe(pc, file)
-					r.Count("stdin_reads", 1)
-				}
-				r.Count("cpu_ms_stdin", c01cpuSince(t0))
-			})
-			if stop {
-				return
-			}
-		}
-	}
-
-	// ---- big flat files (thorough): > 128 MiB, the only way to get two production chunks out of
-	// ReadGenbank / ReadEMBL; 2 and 3 parser workers, with and without full file batch
-	if thorough {
+		// ---- every 2-piece split x every buffer size on 2-record flat files
 		for _, f := range []string{"genbank", "embl"} {
-			if !want("bigflat", f) {
+			if !want("reduced", f) {
 				continue
 			}
-			for _, fb := range []bool{false, true} {
-				for _, w := range []int{2, 3} {
-					if fb == (w == 3) {
-						continue // (plain, 3 workers) and (full file batch, 2 workers)
+			vs := variants(f)
+			if !thorough {
+				vs = vs[:1]
+			}
+			for _, v := range vs {
+				stop := false
+				c01tuples(reduced[f], 2, func(tp []int) {
+					if stop {
+						return
 					}
 					mine := r.Mine(k)
 					k++
 					if !mine {
-						continue
+						return
 					}
 					if r.Expired() {
+						stop = true
+						return
+					}
+					c := v
+					c.Part, c.Shapes = "e1", tp
+					r.Count("reduced_file_transport_split", 1)
+					t0 := c01cpu()
+					x.sweep(c, c01build(c), []string{"split"})
+					r.Count("cpu_ms_reduced_split_"+f, c01cpuSince(t0))
+				})
+				if stop {
+					return
+				}
+			}
+		}
+
+	}
+	cheap := func() {
+		// ---- stdin: file descriptor 0 of the process is the transport (regular file: `cmd < FILE`, pipe:
+		// `cat FILE | cmd`), read by the entry points the commands use for it: ReadFastSeqFromStdin (kseq
+		// on C stdin), ReadGenbank / ReadEMBL on os.Stdin, and by the exported ReadFasta/FastqFromStdin and
+		// the "-" file name of Read*FromFile
+		for _, f := range formats {
+			if !want("stdin", f) {
+				continue
+			}
+			flat := f == "genbank" || f == "embl"
+			for _, v := range variants(f) {
+				stop := false
+				c01tuples(reduced[f], 3, func(tp []int) {
+					if stop {
+						return
+					}
+					mine := r.Mine(k)
+					k++
+					if !mine {
+						return
+					}
+					if r.Expired() {
+						stop = true
 						return
 					}
 					t0 := c01cpu()
-					x.evalBigFlat(c01case{Part: "bigflat", Fmt: f, Reader: "format", Workers: w, WithQual: true, FullBatch: fb})
-					r.Count("bigflat_reads", 1)
-					r.Count("cpu_ms_bigflat", c01cpuSince(t0))
-				}
-			}
-		}
-	}
-
-	// ---- E3: kseq C reader on whole files (plain and gzip)
-	for _, f := range []string{"fasta", "fastq"} {
-		if !want("e3", f) {
-			continue
-		}
-		for _, crlf := range []bool{false, true} {
-			stop := false
-			c01tuples(kseqSet[f], 3, func(tp []int) {
-				if stop {
-					return
-				}
-				mine := r.Mine(k)
-				k++
-				if !mine {
-					return
-				}
-				if r.Expired() {
-					stop = true
-					return
-				}
-				t0 := c01cpu()
-				for _, ext := range []string{"", ".gz"} {
-					c := c01case{Part: "e3", Fmt: f, Shapes: tp, CRLF: crlf, Reader: "kseq", Ext: ext, Workers: 1, WithQual: true}
-					x.evalPipe(c, c01build(c))
-					r.Count("kseq_reads", 1)
-				}
-				r.Count("cpu_ms_e3", c01cpuSince(t0))
-			})
-			if stop {
-				return
-			}
-		}
-	}
-
-	// ---- E3 sweep: kseq's 4096-byte refill boundary over every byte of a 3-record tail
-	for _, f := range []string{"fasta", "fastq"} {
-		if !want("e3sweep", f) {
-			continue
-		}
-		for _, crlf := range []bool{false, true} {
-			stop := false
-			sweepShapes := reduced[f]
-			if !thorough {
-				sweepShapes = sweepShapes[1:]
-			}
-			c01tuples(sweepShapes, 3, func(tp []int) {
-				if stop {
-					return
-				}
-				mine := r.Mine(k)
-				k++
-				if !mine {
-					return
-				}
-				if r.Expired() {
-					stop = true
-					return
-				}
-				t0 := c01cpu()
-				c := c01case{Part: "e3sweep", Fmt: f, Shapes: tp, CRLF: crlf, Reader: "kseq", Workers: 1, WithQual: true}
-				c.Pad = 1
-				f1 := c01build(c)
-				tail := len(f1.data) - f1.ends[0]
-				exts := []string{""}
-				if thorough {
-					exts = []string{"", ".gz"}
-				}
-				seen := map[int]bool{}
-				for e := 0; e <= 1; e++ {
-					for pad := 1; pad <= 4100; pad++ {
-						c.Pad, c.PadId = pad, e
-						o := 4096 - c01padLen(c)
-						if o < -2 || o > tail+2 || seen[o] {
+					c := v
+					c.Part, c.Shapes, c.Workers, c.WithQual = "stdin", tp, 2, true
+					file := c01build(c)
+					type sc struct {
+						rdr, fd0, ext string
+						quick         bool
+					}
+					var scs []sc
+					if !flat {
+						for _, fd0 := range []string{"file", "pipe"} {
+							for _, ext := range []string{"", ".gz"} {
+								scs = append(scs, sc{"kseq-stdin", fd0, ext, true})
+								scs = append(scs, sc{"format-stdin", fd0, ext, (fd0 == "file") == (ext == "")})
+								scs = append(scs, sc{"universal-dash", fd0, ext, fd0 == "pipe" && ext == ""})
+								scs = append(scs, sc{"format-dash", fd0, ext, fd0 == "file" && ext == ".gz"})
+							}
+						}
+					} else {
+						for _, fd0 := range []string{"file", "pipe"} {
+							scs = append(scs, sc{"format-stdin", fd0, "", true}) // the commands hand os.Stdin itself to ReadGenbank / ReadEMBL: no decompression
+							for _, ext := range []string{"", ".gz"} {
+								scs = append(scs, sc{"universal-dash", fd0, ext, (fd0 == "pipe") == (ext == "")})
+								scs = append(scs, sc{"format-dash", fd0, ext, (fd0 == "file") == (ext == "")})
+							}
+						}
+					}
+					for _, s := range scs {
+						if !thorough && !s.quick {
 							continue
 						}
-						seen[o] = true
-						for _, ext := range exts {
-							c.Ext = ext
-							x.evalPipe(c, c01build(c))
-							r.Count("kseq_boundary_sweep_reads", 1)
+						if s.rdr == "universal-dash" && c.Fmt == "genbank" && c.RelHdr && c.CRLF {
+							continue // format sniffing of a CRLF release header is outside the statement
 						}
+						pc := c
+						pc.Reader, pc.Fd0, pc.Ext = s.rdr, s.fd0, s.ext
+						pc.WithFeat = flat && s.fd0 == "pipe"
+						x.evalPipe(pc, file)
+						r.Count("stdin_reads", 1)
 					}
+					r.Count("cpu_ms_stdin", c01cpuSince(t0))
+				})
+				if stop {
+					return
 				}
-				r.Count("kseq_boundary_offsets", int64(len(seen)))
-				r.Count("cpu_ms_e3sweep", c01cpuSince(t0))
-			})
-			if stop {
-				return
 			}
 		}
-	}
 
-	// ---- E4 (in process): 3 MiB files, >= 3 production chunks
-	for _, f := range []string{"fasta", "fastq"} {
-		if !want("e4", f) {
-			continue
-		}
-		var big c01file
-		built := false
-		for _, rdr := range []string{"format", "universal", "kseq", "kseq-stdin", "format-stdin"} {
-			for _, ext := range []string{"", ".gz"} {
-				for _, w := range []int{1, 2, 4} {
-					for _, fb := range []bool{false, true} {
-						for _, fd0 := range []string{"file", "pipe"} {
-							stdin := strings.HasSuffix(rdr, "-stdin")
-							if !stdin && fd0 != "file" {
-								continue // fd0 is a dimension of the stdin readers only
-							}
-							if strings.HasPrefix(rdr, "kseq") && w != 1 {
-								continue
-							}
-							if stdin && (fb || (rdr == "format-stdin" && w != 2)) {
-								continue
-							}
-							if !thorough && ((rdr == "format" && w == 2) || (rdr == "universal" && (w != 2 || ext != ""))) {
-								continue
-							}
-							if !thorough && fb && !(ext == "" && ((rdr == "format" && w == 4) || rdr == "kseq")) {
-								continue
-							}
-							if !thorough && stdin && !((rdr == "kseq-stdin" && ((fd0 == "pipe") == (ext == ""))) || (rdr == "format-stdin" && fd0 == "pipe" && ext == ".gz")) {
-								continue // quick: kseq on a plain pipe and a gzip file, Go reader on a gzip pipe
-							}
-							mine := r.Mine(k)
-							k++
-							if !mine {
-								continue
-							}
-							if r.Expired() {
-								return
-							}
-							if !built {
-								big, _ = c01big(f)
-								built = true
-							}
-							t0 := c01cpu()
-							c := c01case{Part: "e4", Fmt: f, Reader: rdr, Ext: ext, Workers: w, WithQual: true, FullBatch: fb}
-							if stdin {
-								c.Part, c.Fd0, c.Big = "stdin", fd0, true
-							}
-							x.evalPipe(c, big)
-							r.Count("e4_reads", 1)
-							r.Count("cpu_ms_e4", c01cpuSince(t0))
+	}
+	bigflat := func() {
+		// ---- big flat files (thorough): > 128 MiB, the only way to get two production chunks out of
+		// ReadGenbank / ReadEMBL; 2 and 3 parser workers, with and without full file batch
+		if thorough {
+			for _, f := range []string{"genbank", "embl"} {
+				if !want("bigflat", f) {
+					continue
+				}
+				for _, fb := range []bool{false, true} {
+					for _, w := range []int{2, 3} {
+						if fb == (w == 3) {
+							continue // (plain, 3 workers) and (full file batch, 2 workers)
 						}
+						mine := r.Mine(k)
+						k++
+						if !mine {
+							continue
+						}
+						if r.Expired() {
+							return
+						}
+						t0 := c01cpu()
+						x.evalBigFlat(c01case{Part: "bigflat", Fmt: f, Reader: "format", Workers: w, WithQual: true, FullBatch: fb})
+						r.Count("bigflat_reads", 1)
+						r.Count("cpu_ms_bigflat", c01cpuSince(t0))
 					}
 				}
 			}
 		}
-	}
 
+	}
+	kseq := func() {
+		// ---- E3: kseq C reader on whole files (plain and gzip)
+		for _, f := range []string{"fasta", "fastq"} {
+			if !want("e3", f) {
+				continue
+			}
+			for _, crlf := range []bool{false, true} {
+				stop := false
+				c01tuples(kseqSet[f], 3, func(tp []int) {
+					if stop {
+						return
+					}
+					mine := r.Mine(k)
+					k++
+					if !mine {
+						return
+					}
+					if r.Expired() {
+						stop = true
+						return
+					}
+					t0 := c01cpu()
+					for _, ext := range []string{"", ".gz"} {
+						c := c01case{Part: "e3", Fmt: f, Shapes: tp, CRLF: crlf, Reader: "kseq", Ext: ext, Workers: 1, WithQual: true}
+						x.evalPipe(c, c01build(c))
+						r.Count("kseq_reads", 1)
+					}
+					r.Count("cpu_ms_e3", c01cpuSince(t0))
+				})
+				if stop {
+					return
+				}
+			}
+		}
+
+		// ---- E3 sweep: kseq's 4096-byte refill boundary over every byte of a 3-record tail
+		for _, f := range []string{"fasta", "fastq"} {
+			if !want("e3sweep", f) {
+				continue
+			}
+			for _, crlf := range []bool{false, true} {
+				stop := false
+				sweepShapes := reduced[f]
+				if !thorough {
+					sweepShapes = sweepShapes[1:]
+				}
+				c01tuples(sweepShapes, 3, func(tp []int) {
+					if stop {
+						return
+					}
+					mine := r.Mine(k)
+					k++
+					if !mine {
+						return
+					}
+					if r.Expired() {
+						stop = true
+						return
+					}
+					t0 := c01cpu()
+					c := c01case{Part: "e3sweep", Fmt: f, Shapes: tp, CRLF: crlf, Reader: "kseq", Workers: 1, WithQual: true}
+					c.Pad = 1
+					f1 := c01build(c)
+					tail := len(f1.data) - f1.ends[0]
+					exts := []string{""}
+					if thorough {
+						exts = []string{"", ".gz"}
+					}
+					seen := map[int]bool{}
+					for e := 0; e <= 1; e++ {
+						for pad := 1; pad <= 4100; pad++ {
+							c.Pad, c.PadId = pad, e
+							o := 4096 - c01padLen(c)
+							if o < -2 || o > tail+2 || seen[o] {
+								continue
+							}
+							seen[o] = true
+							for _, ext := range exts {
+								c.Ext = ext
+								x.evalPipe(c, c01build(c))
+								r.Count("kseq_boundary_sweep_reads", 1)
+							}
+						}
+					}
+					r.Count("kseq_boundary_offsets", int64(len(seen)))
+					r.Count("cpu_ms_e3sweep", c01cpuSince(t0))
+				})
+				if stop {
+					return
+				}
+			}
+		}
+
+		// ---- E4 (in process): 3 MiB files, >= 3 production chunks
+		for _, f := range []string{"fasta", "fastq"} {
+			if !want("e4", f) {
+				continue
+			}
+			var big c01file
+			built := false
+			for _, rdr := range []string{"format", "universal", "kseq", "kseq-stdin", "format-stdin"} {
+				for _, ext := range []string{"", ".gz"} {
+					for _, w := range []int{1, 2, 4} {
+						for _, fb := range []bool{false, true} {
+							for _, fd0 := range []string{"file", "pipe"} {
+								stdin := strings.HasSuffix(rdr, "-stdin")
+								if !stdin && fd0 != "file" {
+									continue // fd0 is a dimension of the stdin readers only
+								}
+								if strings.HasPrefix(rdr, "kseq") && w != 1 {
+									continue
+								}
+								if stdin && (fb || (rdr == "format-stdin" && w != 2)) {
+									continue
+								}
+								if !thorough && ((rdr == "format" && w == 2) || (rdr == "universal" && (w != 2 || ext != ""))) {
+									continue
+								}
+								if !thorough && fb && !(ext == "" && ((rdr == "format" && w == 4) || rdr == "kseq")) {
+									continue
+								}
+								if !thorough && stdin && !((rdr == "kseq-stdin" && ((fd0 == "pipe") == (ext == ""))) || (rdr == "format-stdin" && fd0 == "pipe" && ext == ".gz")) {
+									continue // quick: kseq on a plain pipe and a gzip file, Go reader on a gzip pipe
+								}
+								mine := r.Mine(k)
+								k++
+								if !mine {
+									continue
+								}
+								if r.Expired() {
+									return
+								}
+								if !built {
+									big, _ = c01big(f)
+									built = true
+								}
+								t0 := c01cpu()
+								c := c01case{Part: "e4", Fmt: f, Reader: rdr, Ext: ext, Workers: w, WithQual: true, FullBatch: fb}
+								if stdin {
+									c.Part, c.Fd0, c.Big = "stdin", fd0, true
+								}
+								x.evalPipe(c, big)
+								r.Count("e4_reads", 1)
+								r.Count("cpu_ms_e4", c01cpuSince(t0))
+							}
+						}
+					}
+				}
+			}
+		}
+	}
+	// every phase polls r.Expired() and returns at once when the deadline has passed
+	cheap()
+	kseq()
+	deep()
+	bigflat()
+	if thorough && !r.Expired() {
+		runMain(true) // the full shape products last
+	}
 }
